@@ -143,13 +143,17 @@ def addDense (m : CppM) (k : Nat) (d : List Rat) : CppM :=
       let qb := d.getD (u * k + v) 0 + d.getD (v * k + u) 0
       if qb ≠ 0 then (acc.quad u v qb false).1 else acc) acc) m
 
+/-- the BQM overload of the iterator `add_quadratic` grows the model to the largest index first -/
+def cooBase (m : CppM) (rows cols : List Nat) : CppM :=
+  let mx := (rows ++ cols).foldl max 0
+  match m.bvt with
+  | some _ => if rows.length > 0 ∧ mx ≥ m.n then m.baseResize (mx + 1) else m
+  | none => m
+
 /-- iterator `add_quadratic(rows, cols, biases, len)`; the BQM overload grows the model first -/
 def addCoo (m : CppM) (rows cols : List Nat) (vals : List Rat) : CppM :=
-  let mx := (rows ++ cols).foldl max 0
-  let m := match m.bvt with
-    | some _ => if rows.length > 0 ∧ mx ≥ m.n then m.baseResize (mx + 1) else m
-    | none => m
-  (List.range rows.length).foldl (fun acc i => (acc.quad (rows.getD i 0) (cols.getD i 0) (vals.getD i 0) false).1) m
+  (List.range rows.length).foldl (fun acc i => (acc.quad (rows.getD i 0) (cols.getD i 0) (vals.getD i 0) false).1)
+    (m.cooBase rows cols)
 
 /-- `QuadraticModel(bqm)` -/
 def qmFromBqm (b : CppM) : CppM :=
